@@ -503,7 +503,14 @@ int process_wait(pid_t process)
   ASSERT(process != PROCESS_INVALID);
 
   int status = 0;
-  int r = waitpid(process, &status, 0);
+  int r = -1;
+
+  // The child has exited (or is about to): don't give up on it because a signal
+  // arrived while we were collecting its status.
+  do {
+    r = waitpid(process, &status, 0);
+  } while (r < 0 && errno == EINTR);
+
   if (r < 0) {
     return -errno;
   }
